@@ -412,8 +412,51 @@ func (g *Gen) rowFor(t string, insert bool, pending map[string][]string) map[str
 	return row
 }
 
+// RefScenario: a new row whose set (or map) of weak references holds a row that never existed and a row that
+// the same commit garbage collects: the two are pruned in different passes over the references.
+func (g *Gen) RefScenario() []AOp {
+	isRoot := g.rootSemantics()
+	type cand struct{ t, col, target string }
+	var cands []cand
+	for _, t := range g.tableNames() {
+		for _, cn := range g.S.Tables[t].ColNames() {
+			c := g.S.Tables[t].Cols[cn]
+			if KindOf(c) == "set" && c.Key.Ref != "" && c.Key.RT == "weak" && !isRoot(c.Key.Ref) && (c.Max == -1 || c.Max >= 2) {
+				cands = append(cands, cand{t, cn, c.Key.Ref})
+			}
+		}
+	}
+	if len(cands) == 0 {
+		return nil
+	}
+	c := cands[g.pick(len(cands))]
+	// a row of the non-root target table nobody refers to strongly: the commit collects it
+	doomed := g.fresh()
+	drow := g.MarkerRow(c.target, fmt.Sprintf("z%d", g.next), g.next)
+	holder := g.fresh()
+	hrow := g.MarkerRow(c.t, fmt.Sprintf("h%d", g.next), g.next)
+	refs := []interface{}{doomed, fmt.Sprintf("u%d", 800+g.pick(3))}
+	if us := g.uuidsOf(c.target); len(us) > 0 && g.chance(0.4) {
+		refs = append(refs, us[g.pick(len(us))])
+	}
+	hrow[c.col] = refs
+	ops := []AOp{{Op: "insert", Table: c.target, UUID: doomed, Row: drow}, {Op: "insert", Table: c.t, UUID: holder, Row: hrow}}
+	if g.chance(0.5) {
+		ops[0], ops[1] = ops[1], ops[0]
+	}
+	for i := range ops {
+		ops[i].Normalize()
+	}
+	return ops
+}
+
 // Txn generates one transaction.
 func (g *Gen) Txn() []AOp {
+	if g.chance(0.12 * g.P.Refs) {
+		if ops := g.RefScenario(); ops != nil {
+			return ops
+		}
+	}
 	if g.chance(0.25 * g.P.Index / 0.3 * 0.3) {
 		if ops := g.Scenario(); ops != nil {
 			return ops
@@ -550,7 +593,8 @@ func isDefaultAbs(c Col, v interface{}) bool { return IsDefaultAbs(c, v) }
 func (g *Gen) fillWait(o *AOp, pending map[string][]string) {
 	t := o.Table
 	tb := g.S.Tables[t]
-	o.Timeout = 0
+	// nothing else can commit while the transaction runs: a positive timeout only delays the same answer
+	o.Timeout = []int{0, 0, 0, 3, 15}[g.pick(5)]
 	o.Until = []string{"==", "!="}[g.pick(2)]
 	us := g.uuidsOf(t)
 	cols := tb.ColNames()
